@@ -53,7 +53,7 @@ static const char* SPEC_NAMES[6] = {"clustered_rest", "random_rest", "linear", "
 static const char* BASIS_NAMES[4] = {"permutation", "givens_product", "block_orthogonal", "dense_orthogonal"};
 static const char* B_NAMES[5] = {"none", "identity_via_setB", "diagonal", "bidiagonal_LLt", "dense_spd"};
 static const char* PREC_NAMES[4] = {"none", "jacobi", "scaled_identity", "spd_inverse"};
-static const char* START_NAMES[6] = {"random_dense", "random_sparse", "unit_vectors", "near_eigenvectors", "rotated_invariant_subspace", "exact_eigenvectors"};
+static const char* START_NAMES[7] = {"random_dense", "random_sparse", "unit_vectors", "near_eigenvectors", "rotated_invariant_subspace", "exact_eigenvectors", "arrow_support"};
 static const char* INFO_NAMES[4] = {"Success", "NumericalIssue", "NoConvergence", "InvalidInput"};
 
 // round a long double matrix to the scalar type under test and store it sparse (exact zeros dropped)
@@ -151,6 +151,7 @@ struct Problem
     std::vector<Index> wanted;  // indices into lam of the k eigenvalues the solver should return
     MatL Vw;                // the wanted reference eigenvectors
     ld lminB = 1, lmaxB = 1, normA = 0, normB = 1, gap_abs = 0, rho = 1;
+    bool generic_start = true;  // dense random ingredients in the start block or a dense eigenvector basis
     ld cmin = 0;            // cosine of the largest principal angle between the block compute() starts from and span(Vw)
 };
 
@@ -241,16 +242,33 @@ static void check_outcome(Spectra::LOBPCGSolver<Real>& solver, const Problem& P,
     MatL X = widen_sp(Xs);
     VF_CHECK(vf::all_finite(X), "iterate_finite", tag << "private iterate contains non-finite entries");
     MatL BX = P.hasB ? MatL(P.Bl * X) : X;
-    MatL G = X.transpose() * BX;
-    ld gerr = vf::maxabs(MatL(G - MatL::Identity(k, k)));
     const ld kappaB = P.lmaxB / P.lminB;
     const ld its = 1 + (ld) std::min<long>((long) n, std::max(0, maxit));
+    MatL G = X.transpose() * BX;
+    ld gerr = vf::maxabs(MatL(G - MatL::Identity(k, k)));
     // (capped: an error of 1/4 is not "orthonormal up to rounding" whatever kappa(B) and the precision are)
     const ld tolG = std::min<ld>(0.25L, CTOL * (ld) n * EPS * kappaB * its);
     c.feat[tag + "gram_err"] = (double) gerr;
+    c.feat[tag + "gram_err_over_tol"] = (double) (gerr / tolG);
     c.feat[tag + "coef_rows"] = (double) solver.m_evectors.rows();
     c.feat[tag + "min_gram_diag"] = (double) G.diagonal().minCoeff();
     c.feat[tag + "max_gram_diag"] = (double) G.diagonal().maxCoeff();
+    // ---- residuals() == A X - B X diag(theta) (before the Gram check, so that an inconsistency between the iterate and the carried
+    //      products A X, B X is not shadowed by the open orthonormality finding, which matches only amplified rounding) ------------
+    MatL Rtrue = P.Al * X - BX * th.asDiagonal();
+    // ||X||_F of a B-orthonormal block is at most sqrt(k / lambda_min(B)); the recurrences that carry A X and B X have seen iterates of that size
+    const ld xnorm = std::max(vf::fro(X), std::sqrt((ld) k / P.lminB));
+    const ld tolR = CTOL * (ld) n * EPS * (P.normA + thmax * P.normB) * xnorm * its;
+    ld rdiff = vf::fro(MatL(Rp - Rtrue));
+    c.feat[tag + "residual_mismatch_rel"] = (double) (rdiff / ((P.normA + thmax * P.normB) * xnorm));
+    VF_CHECK(rdiff <= tolR, "residual_identity", tag << "||residuals() - (A X - B X diag(ev))||_F = " << vf::num(rdiff) << " > " << vf::num(tolR) << " (private iterate)");
+    for (Index j = 0; j < k; j++)
+    {
+        ld rt = col_norm(Rtrue, j);
+        VF_CHECK(rt <= tolL2 + tolR, "true_residual_norm", tag << "||A x - theta B x|| = " << vf::num(rt) << " for column " << j << " > tol*n = " << vf::num(tolL2) << " (+rounding " << vf::num(tolR) << ")");
+    }
+
+    // ---- X'BX = I ----------------------------------------------------------------------------------------------------
     if (vf::options().geti("debug", 0))
     {
         std::cout.precision(6);
@@ -263,26 +281,15 @@ static void check_outcome(Spectra::LOBPCGSolver<Real>& solver, const Problem& P,
     }
     VF_CHECK(gerr <= tolG, "iterate_b_orthonormality", tag << "max|X'BX - I| = " << vf::num(gerr) << " > " << vf::num(tolG) << " (private iterate, kappa(B)=" << vf::num(kappaB) << ", diag(X'BX) in [" << vf::num(G.diagonal().minCoeff()) << ", " << vf::num(G.diagonal().maxCoeff()) << "], coefficient matrix rows " << solver.m_evectors.rows() << ")");
 
-    // ---- residuals() == A X - B X diag(theta) ------------------------------------------------------------------------
-    MatL Rtrue = P.Al * X - BX * th.asDiagonal();
-    // ||X||_F of a B-orthonormal block is at most sqrt(k / lambda_min(B)); the recurrences that carry A X and B X have seen iterates of that size
-    const ld xnorm = std::max(vf::fro(X), std::sqrt((ld) k / P.lminB));
-    const ld tolR = CTOL * (ld) n * EPS * (P.normA + thmax * P.normB) * xnorm * its;
-    ld rdiff = vf::fro(MatL(Rp - Rtrue));
-    VF_CHECK(rdiff <= tolR, "residual_identity", tag << "||residuals() - (A X - B X diag(ev))||_F = " << vf::num(rdiff) << " > " << vf::num(tolR) << " (private iterate)");
-    for (Index j = 0; j < k; j++)
-    {
-        ld rt = col_norm(Rtrue, j);
-        VF_CHECK(rt <= tolL2 + tolR, "true_residual_norm", tag << "||A x - theta B x|| = " << vf::num(rt) << " for column " << j << " > tol*n = " << vf::num(tolL2) << " (+rounding " << vf::num(tolR) << ")");
-    }
-
     // ---- eigenvalues are the wanted ones of the reference pencil ---------------------------------------------
     // for ||x||_B = 1: min_j |theta - lambda_j| <= ||r|| / sqrt(lambda_min(B)); rounding term scaled by 1/lambda_min(B)
     const ld tolE = tolL2 / std::sqrt(P.lminB) + CTOL * (ld) n * EPS * (P.normA + thmax * P.normB) / P.lminB * its;
-    // "Which" eigenvalues can be asserted when (a) the tolerance separates neighbouring eigenvalues and (b) the residual test cannot be
+    // "Which" eigenvalues can be asserted when the start block is generic with respect to the eigenvector basis (a sparse start block on
+    // a sparse eigenvector basis spans few eigenvectors: span{X, AX} can then contain exact unwanted eigenvectors whose Ritz pairs have
+    // zero residual and are legitimately accepted while a wanted direction is discarded with the unused Ritz vectors), and when (a) the tolerance separates neighbouring eigenvalues and (b) the residual test cannot be
     // met next to an unwanted eigenvector: a block at angle acos(c) from the wanted space has a residual of about c*gap*sqrt(lambda_min(B))
     // there, and the block compute() started from had c = cmin (a sound iteration only increases it).
-    const bool identity = (P.cmin >= 1e-3L) && (tolE <= P.gap_abs / 8) && (4 * tolL2 <= P.cmin * P.gap_abs * std::sqrt(P.lminB));
+    const bool identity = P.generic_start && (P.cmin >= 1e-3L) && (tolE <= P.gap_abs / 8) && (4 * tolL2 <= P.cmin * P.gap_abs * std::sqrt(P.lminB));
     ld worst_ev = 0;
     {
         // feature for the known-finding signature: is every returned value a genuine reference eigenvalue (wherever it sits)?
@@ -304,6 +311,8 @@ static void check_outcome(Spectra::LOBPCGSolver<Real>& solver, const Problem& P,
             ld ref = P.lam[P.wanted[i]];
             ld e = std::fabs(th[i] - ref);
             worst_ev = std::max(worst_ev, e / tolE);
+            if (!(e <= tolE))  // feature for KF-C17-4: is the missed eigenvalue numerically zero (A singular at working precision)?
+                c.feat[tag + "missed_ref_over_scale"] = (double) (std::fabs(ref) / std::max(std::fabs(P.lam[0]), std::fabs(P.lam[n - 1])));
             VF_CHECK(e <= tolE, "eigenvalue_not_smallest", tag << "eigenvalues()[" << i << "] = " << vf::num(th[i]) << " but the " << (P.m ? "(deflated) " : "") << i << "-th smallest reference eigenvalue is "
                                                                   << vf::num(ref) << " (|diff| = " << vf::num(e) << " > " << vf::num(tolE) << "; start block cos(max angle) = " << vf::num(P.cmin) << ")");
         }
@@ -586,8 +595,8 @@ static void run_case(vf::Draw& d, vf::Case& c)
     }
 
     // ---- initial block -----------------------------------------------------------------------------------------------
-    static const int START_SLOTS[10] = {0, 0, 0, 1, 1, 2, 2, 3, 4, 5};
-    int start = START_SLOTS[d.pick("start", 10)];
+    static const int START_SLOTS[11] = {0, 0, 0, 1, 1, 2, 2, 3, 4, 5, 6};
+    int start = START_SLOTS[d.pick("start", 11)];
     MatL Xd = MatL::Zero(n, k);
     MatL Vw(n, k);
     for (Index j = 0; j < k; j++)
@@ -634,12 +643,24 @@ static void run_case(vf::Draw& d, vf::Case& c)
             Xd = Vw * M;
             break;
         }
-        default:
+        case 5:
             for (Index j = 0; j < k; j++)
                 Xd.col(j) = Vw.col(j) * (1 + (g.u() + 1));
             break;
+        default:
+            // column 0 is dense, columns 1..k-1 have mutually disjoint supports (rows congruent to j modulo k) and different lengths:
+            // with B absent or diagonal X'BX is an arrow matrix with exact zeros
+            for (Index i = 0; i < n; i++)
+            {
+                Xd(i, 0) = g.u();
+                Index j = i % k;
+                if (j > 0)
+                    Xd(i, j) = (1 + (ld) j) * (g.u() + 1.5L);
+            }
+            break;
     }
     P.X0 = to_sp(Xd);
+    P.generic_start = (start == 0 || start == 3 || start == 4 || start == 5) || (basis == 3 && spec != 5);
     MatL X0l = widen_sp(P.X0);
     {
         // full column rank and a component along every wanted eigenvector ("random full-rank initial block"):
@@ -742,6 +763,8 @@ static void run_case(vf::Draw& d, vf::Case& c)
         c.cls("A_density<25%");
     if (P.cmin < 1e-3L)
         c.cls("deficient_start");
+    if (!P.generic_start)
+        c.cls("structured_start_on_structured_basis");
     c.feat["k"] = (double) k;
     c.feat["n"] = (double) n;
     c.feat["start"] = start;
@@ -886,20 +909,31 @@ static std::string match_(const vf::Violation& v, const vf::Case& c)
     // converge (reported residual columns not below the new tol*n) or that is left by an exception.
     if (on_second && c.f("info_before_second", -1) == Eigen::Success && (v.kind == "residual_norm" || v.kind == "status_after_exception"))
         return "lobpcg_status_not_reset";
-    // KF-C17-4: the small Rayleigh-Ritz pencil is handed to the iterative SymGEigsSolver, which reports Successful for a set of
-    // Ritz values that misses the smallest one; LOBPCG then converges (B-orthonormal iterate, small residuals, every returned value a
-    // genuine eigenvalue of the pencil) to eigenvalues that are not the k smallest.
+    // KF-C17-4: the small Rayleigh-Ritz pencil is handed to the iterative SymGEigsSolver, whose start vector is forced into range(A):
+    // a zero eigenvalue of a singular A is invisible to it, it reports Successful for Ritz values that miss it, and LOBPCG converges
+    // (B-orthonormal iterate, small residuals, every returned value a genuine eigenvalue of the pencil) without the eigenvalue 0.
     for (const char* tag : {"c1.", "c2."})
-        if (v.kind == "eigenvalue_not_smallest" && v.detail.compare(0, 3, tag) == 0 && c.f(std::string(tag) + "all_in_spectrum") > 0)
-            return "lobpcg_rayleigh_ritz_misses_smallest";
+        if (v.kind == "eigenvalue_not_smallest" && v.detail.compare(0, 3, tag) == 0 && c.f(std::string(tag) + "all_in_spectrum") > 0 &&
+            c.f(std::string(tag) + "missed_ref_over_scale", 1) <= 64.0 * c.f("n") * (double) EPS)
+            return "lobpcg_rayleigh_ritz_misses_zero_eigenvalue";
     // KF-C17-5: when the B-orthonormalisation of the start block fails (LDLT of X'BX reports a numerical issue, here: a second compute()
     // on an iterate that diverged in the first one) compute() carries on and multiplies the never-assigned BX: Eigen size assertion
     if (v.kind == "eigen_assert" && v.detail.find("invalid matrix product") != std::string::npos && c.f("stage") == 2 && c.f("success1") == 0)
         return "lobpcg_unset_bx_after_failed_orthonormalisation";
     // KF-C17-3 (provisional): Success reported for an iterate that is not B-orthonormal
+    // Matched only after at least one Rayleigh-Ritz step (or on a second compute()). The same ill-conditioned coefficient matrices
+    // amplify the rounding errors of the recurrences for A X and B X, so a residual-identity failure belongs to this finding when
+    // orthonormality is lost too and the mismatch is still small relative to ||A|| ||X|| (amplified rounding, not a wrong formula).
     for (const char* tag : {"c1.", "c2."})
-        if (v.kind == "iterate_b_orthonormality" && v.detail.compare(0, 3, tag) == 0 && (c.f(std::string(tag) + "coef_rows") > c.f("k") || c.f("stage") == 2))
+    {
+        const std::string t(tag);
+        if (v.detail.compare(0, 3, tag) != 0 || !(c.f(t + "coef_rows") > c.f("k") || c.f("stage") == 2))
+            continue;
+        if (v.kind == "iterate_b_orthonormality")
             return "lobpcg_false_success_iterate_not_orthonormal";
+        if ((v.kind == "residual_identity" || v.kind == "true_residual_norm") && c.f(t + "gram_err_over_tol") > 1 && c.f(t + "residual_mismatch_rel", 1) <= 1e-3)
+            return "lobpcg_false_success_iterate_not_orthonormal";
+    }
     // KF-C17-6: orthogonalizeInPlace() uses matrixU() / vectorD() of SimplicialLDLT as if they belonged to M'BM, but with the default
     // (AMD) ordering they belong to P M'BM P'. Visible at iteration 0 when two start columns are B-orthogonal (exact zero in M'BM) and the
     // pivots differ: the columns are scaled with each other's pivots, Success is reported for a block with X'BX != I.
